@@ -172,25 +172,11 @@ def seed_cases(family, si, name, img, edits, fmap):
 
 
 def asm_field(path):
+    """last keyword on the path: the assembler field that was replaced"""
     if path is None:
         return "asm:scalar"
-    parts = re.findall(r":([A-Za-z-]+)|(-?\d+)", path)
-    return "asm:" + ".".join(k if k else "*" for k, n in parts) if parts else "asm:root"
-
-
-ASM_VALUES = ["nil", "true", "-1", "0", "1", "2", "127", "128", "255", "256", "32767", "32768", "65535", "65536",
-              "8388607", "8388608", "16777215", "16777216", "2147483647", "-2147483648", "-8388609", "1.5", "1e100",
-              ":kw", ":l1", ":upvalue", "sym", "a", "\"str\"", "[]", "[1]", "()", "(x)", "(ret 0)", "(ldi 0 1 2 3)",
-              "@[]", "{}", "@{}", "[-1]", "[0 1 2 3 4 5 6 7 8 9]", ":c10/delete", ":c10/dup"]
-ASM_SCALARS = ["nil", "true", "0", "-1", "1.5", "\"\"", "\"str\"", ":kw", "sym", "[]", "()", "@[]", "{}", "@{}",
-               "{:bytecode nil}", "{:bytecode []}", "{:bytecode [()]}", "{:bytecode [(ret 0)]}", "{:bytecode [(retn)] :arity -1}",
-               "{:bytecode [(retn)] :sourcemap [()]}", "{:bytecode [(retn)] :symbolmap [()]}",
-               "{:bytecode [(retn)] :environments [0]}", "{:bytecode [(retn)] :environments [-1]}",
-               "{:bytecode [(retn)] :closures [{}]}", "{:bytecode [(retn)] :closures [1]}",
-               "{:bytecode [(retn)] :slots [1]}", "{:bytecode [(retn)] :slots [[1]]}", "{:bytecode [(retn)] :constants 1}",
-               "{:bytecode [(jmp 0)]}", "{:bytecode [(jmp -1)]}", "{:bytecode [(jmp 1)]}",
-               "@{:bytecode @[(ldi 0 1) (ret 0)] :arity 2147483647}", "{:bytecode [(ret 70000)]}",
-               "{:bytecode [(ldi 255 1) (ret 255)]}", "{:bytecode [(ldi 256 1) (retn)]}"]
+    kws = re.findall(r":([A-Za-z-]+)", path)
+    return "asm:" + (kws[-1] if kws else "root")
 
 
 def asm_cases():
@@ -276,6 +262,9 @@ def classify_stderr(rc, timed_out, err):
             mm = re.search(r"janet internal error[^\n]*", text)
             msg = mm.group(0) if mm else ""
         return cls, "%s:%s:%s" % (step_class, kind, fn), "%s in step %s; frames: %s %s" % (kind, step, top, msg), step
+    mm = re.search(r"^C10-CHILD-SIGNAL (-?\d+)", text, re.M)
+    if mm:
+        return "asan", "%s:signal%s:child" % (step_class, mm.group(1)), "forked peg child killed by signal %s" % mm.group(1), step
     if "hard rss limit exhausted" in text or "soft rss limit exhausted" in text:
         return "rss", "", "rss limit", step
     if "janet out of memory" in text:
@@ -310,6 +299,8 @@ def diagnose(ctx, case):
     c1 = classify_stderr(r1.rc, r1.timed_out, r1.err)
     if c1[0] == "none" and "DONE" in o1:
         return ("none", "", "", c1[3], r1)
+    if c1[0] in ("oom", "rss"):
+        return c1 + (r1,)
     r2, o2 = run_single(ctx, case.item)
     c2 = classify_stderr(r2.rc, r2.timed_out, r2.err)
     if c1[:2] != c2[:2]:
@@ -381,8 +372,9 @@ def run_cases(chk, ctx, tally, family, cases):
             raise HarnessError("item %s does not fail the same way twice: %s" % (c.item[:200], detail))
         else:
             st["hang" if cls == "hang" else "crash"] += 1
-            chk.outcome("violation:" + sig)
-            tally.groups.setdefault(sig, []).append((c, cls, detail, r))
+            full = "%s|%s" % (c.field, sig.replace(":", "|"))
+            chk.outcome("violation:" + full)
+            tally.groups.setdefault(full, []).append((c, cls, detail, r))
     chk.part(family, **st)
     return st
 
@@ -426,23 +418,33 @@ FAMILY_RANK = {"baseline": 0, "struct": 1, "trunc": 2, "subst": 3, "pairs": 4, "
 
 
 def report(chk, ctx, tally):
-    for sig in sorted(tally.groups):
+    sigs = sorted(tally.groups)
+    reps = {}
+    for sig in sigs:
         lst = tally.groups[sig]
         lst.sort(key=lambda t: (FAMILY_RANK.get(t[0].family, 9), len(t[0].data) if t[0].data is not None else len(t[0].item),
                                 t[0].label))
-        case, cls, detail, r = lst[0]
-        text = replay_text(ctx, case)
-        # confirm that the stand-alone replay fails in the sanitizer build
+        reps[sig] = (lst[0], replay_text(ctx, lst[0][0]))
+
+    def confirm(sig):
+        """the stand-alone replay must fail in the sanitizer build"""
+        if (chk.prop, sig) in chk.known:
+            return None
         d = mktmp()
         try:
             p = os.path.join(d, "replay.janet")
             with open(p, "w") as f:
-                f.write(text)
+                f.write(reps[sig][1])
             rr = run(vjanet(VARIANT), [p], env={"ASAN_OPTIONS": ASAN}, timeout=ITEM_TIMEOUT)
             c = classify_stderr(rr.rc, rr.timed_out, rr.err)
-            confirmed = c[0] not in ("none", "oom", "rss")
+            return c[0] not in ("none", "oom", "rss")
         finally:
             shutil.rmtree(d, ignore_errors=True)
+
+    confirmed = dict(zip(sigs, pmap(confirm, sigs)))
+    for sig in sigs:
+        lst = tally.groups[sig]
+        (case, cls, detail, r), text = reps[sig]
         fams = {}
         for t in lst:
             fams[t[0].family] = fams.get(t[0].family, 0) + 1
@@ -450,7 +452,7 @@ def report(chk, ctx, tally):
             "hang" if cls == "hang" else ("abort" if cls in ("abort", "exit") else "memory error"), detail, case.family,
             case.label, (" image=" + case.data.hex()) if case.data is not None and len(case.data) <= 80 else "",
             len(lst), ", ".join("%s %d" % kv for kv in sorted(fams.items())),
-            "reproduces it" if confirmed else "did NOT reproduce it (the batch history matters)"))
+            "reproduces it" if confirmed[sig] else "did NOT reproduce it (needs the budgeted helper or the batch history)"))
         for _ in lst:
             chk.violation(sig, what, replay_text=text, replay_cmd="%s <this file>" % vjanet(VARIANT))
     if tally.anomalies:
@@ -487,13 +489,15 @@ def main():
     try:
         seeds, ctx.seedfile = make_seeds(scratch)
         parsed = validate_reader(chk, seeds)
+        fmaps = [field_map(r) for r in parsed]
         order = sorted(range(len(seeds)), key=lambda i: (len(seeds[i][1]), seeds[i][0]))
 
         def want(f):
             return only is None or only == f
 
         # 0. the unmutated seeds and templates must be accepted and survive the battery
-        base = [Case("baseline", "%s unmutated" % seeds[i][0], m_item(i, 0, 0, b""), seeds[i][1]) for i in order]
+        base = [Case("baseline", "%s unmutated" % seeds[i][0], m_item(i, 0, 0, b""), seeds[i][1], field="unmutated")
+                for i in order]
         st = run_cases(chk, ctx, tally, "baseline", base)
         if st["accepted"] + st["crash"] + st["hang"] != len(base):
             raise HarnessError("unmutated seeds were not all accepted: %s" % st)
@@ -503,20 +507,21 @@ def main():
             cases = []
             for i in order:
                 cases += seed_cases("trunc", i, seeds[i][0], seeds[i][1],
-                                    [("truncated to %d" % off, off, dl, rp) for _, off, dl, rp in model.mutations_trunc(seeds[i][1])])
+                                    [("truncated to %d" % off, off, dl, rp) for _, off, dl, rp in model.mutations_trunc(seeds[i][1])],
+                                    fmaps[i])
             run_cases(chk, ctx, tally, "trunc", cases)
 
         # 2. structure-aware single-field mutations
         if want("struct"):
             cases = []
             for i in order:
-                cases += seed_cases("struct", i, seeds[i][0], seeds[i][1], model.mutations_struct(parsed[i], nops))
+                cases += seed_cases("struct", i, seeds[i][0], seeds[i][1], model.mutations_struct(parsed[i], nops), fmaps[i])
             run_cases(chk, ctx, tally, "struct", cases)
 
         # 3. free byte strings
         if want("free"):
             maxlen = 2 if chk.quick else 3
-            cases = [Case("free", "bytes %s" % b.hex(), "[:raw %s]" % jdn(b), b) for b in model.free_strings(maxlen)]
+            cases = [Case("free", "bytes %s" % b.hex(), "[:raw %s]" % jdn(b), b, field="free") for b in model.free_strings(maxlen)]
             run_cases(chk, ctx, tally, "free", cases)
             chk.cov["free_strings_max_length"] = maxlen
 
@@ -561,7 +566,7 @@ def main():
                 for i in g:
                     cases += seed_cases("subst", i, seeds[i][0], seeds[i][1],
                                         [("byte %d := %02x" % (off, rp[0]), off, dl, rp) for _, off, dl, rp in
-                                         model.mutations_subst(seeds[i][1])])
+                                         model.mutations_subst(seeds[i][1])], fmaps[i])
                 run_cases(chk, ctx, tally, "subst", cases)
                 done += len(g)
             chk.cov["subst_seeds_completed"] = done
@@ -578,7 +583,9 @@ def main():
                     cases = []
                     for label, edits in pm:
                         item = "[:e %d [%s]]" % (i, " ".join("[%d %d %s]" % (o, d, jdn(bytes(rp))) for o, d, rp in edits))
-                        cases.append(Case("pairs", "%s %s" % (seeds[i][0], label), item, model.apply_edits(seeds[i][1], edits)))
+                        fld = "+".join(norm_field(x.split("=")[0]) for x in label.split(","))
+                        cases.append(Case("pairs", "%s %s" % (seeds[i][0], label), item, model.apply_edits(seeds[i][1], edits),
+                                          field=fld))
                     run_cases(chk, ctx, tally, "pairs", cases)
                 done += 1
             chk.cov["pairs_seeds_completed"] = done
